@@ -9,6 +9,7 @@ import (
 	"fmt"
 	"io"
 	"net/http"
+	"os"
 	"runtime/debug"
 	"strconv"
 	"strings"
@@ -147,10 +148,10 @@ func (l *link) deliver(k *Kernel) {
 		chunk := l.pending[:n]
 		l.pending = l.pending[n:]
 		l.delivered += n
-		h := shortHash(chunk)
-		if l.dir == "resp" && l.conn.status == 400 {
-			// multi-violation bodies list violations in Go map order: not part of the witness
-			h = "v400"
+		// chunk contents are not part of the witness (see bagHash): only sizes are
+		h := "-"
+		if dumpBytes {
+			h = fmt.Sprintf("%q", chunk)
 		}
 		k.Event("deliver", "conn=%d dir=%s n=%d h=%s", l.conn.id, l.dir, n, h)
 		l.pipe.push(chunk)
@@ -171,6 +172,8 @@ func (l *link) deliver(k *Kernel) {
 		}
 	}
 }
+
+var dumpBytes = os.Getenv("VERIF_DUMPBYTES") != ""
 
 var errReset = errors.New("read tcp sim: connection reset by peer")
 
